@@ -151,11 +151,15 @@ func buildAll() builds {
 		h := filepath.Join(scratch, m, "h")
 		os.MkdirAll(h, 0o755)
 		copyTree(filepath.Join(verifDir, "harness"), filepath.Join(h, "harness"))
+		if mp := modulePath(); mp != defaultModule {
+			// the tree declares another module path (e.g. a new major version): follow it
+			retarget(filepath.Join(h, "harness"), mp)
+		}
 		copyTree(filepath.Join(verifDir, "proto"), filepath.Join(h, "proto"))
 		if sum, err := os.ReadFile(filepath.Join(repoDir, "go.sum")); err == nil {
 			os.WriteFile(filepath.Join(h, "go.sum"), sum, 0o644)
 		}
-		os.WriteFile(filepath.Join(h, "go.mod"), []byte(harnessGoMod), 0o644)
+		os.WriteFile(filepath.Join(h, "go.mod"), []byte(strings.ReplaceAll(harnessGoMod, defaultModule, modulePath())), 0o644)
 	}
 	rb, err := os.ReadFile(repPath)
 	if err != nil {
@@ -197,4 +201,33 @@ func buildAll() builds {
 		}
 	}
 	return b
+}
+
+const defaultModule = "github.com/github/go-spdx/v2"
+
+// modulePath reads the module path of the tree under test.
+func modulePath() string {
+	b, err := os.ReadFile(filepath.Join(repoDir, "go.mod"))
+	if err != nil {
+		fatal("%v", err)
+	}
+	for _, l := range strings.Split(string(b), "\n") {
+		l = strings.TrimSpace(l)
+		if strings.HasPrefix(l, "module ") {
+			return strings.Trim(strings.TrimSpace(strings.TrimPrefix(l, "module ")), "\"")
+		}
+	}
+	fatal("no module path in %s/go.mod", repoDir)
+	return ""
+}
+
+func retarget(dir, mp string) {
+	ents, _ := os.ReadDir(dir)
+	for _, e := range ents {
+		p := filepath.Join(dir, e.Name())
+		b, err := os.ReadFile(p)
+		if err == nil {
+			os.WriteFile(p, []byte(strings.ReplaceAll(string(b), defaultModule, mp)), 0o644)
+		}
+	}
 }
